@@ -570,8 +570,51 @@ def gen_space():
         if not (r[0] == 'field' and is_path(r[1], 'c_width') and r[2] in 'xyz'):
             raise Unparsed("cell offset component %s is not counter * c_width.?" % ax)
         axes.append('xyz'.index(r[2]))
-    return ("/-- component of `c_width` that `Space::new` multiplies the cell counter with, for the x, y, z coordinate of a grid cell's anchor -/\n"
-            "def cellLocAxes : List Nat := [%d, %d, %d]\n" % tuple(axes))
+    out = ("/-- component of `c_width` that `Space::new` multiplies the cell counter with, for the x, y, z coordinate of a grid cell's anchor -/\n"
+           "def cellLocAxes : List Nat := [%d, %d, %d]\n" % tuple(axes))
+    # Cell::closest_loc: `if pos.A > self.loc.A { res.A = pos.A.min(self.loc.A + self.width.B); }` for A = x, y, z
+    cs, ce = find_impl(toks, ['Cell'])
+    _, cbody, _ = find_fn(toks[cs:ce], 'closest_loc')
+    blk = parse_body(cbody)
+    quads = []
+    for st in blk[1]:
+        if st[0] != 'expr' or st[1][0] != 'if':
+            continue
+        cond, then = st[1][1], st[1][2]
+        while cond[0] == 'paren':
+            cond = cond[1]
+        if not (cond[0] == 'bin' and cond[1] == '>' and cond[2][0] == 'field' and cond[3][0] == 'field'):
+            raise Unparsed("closest_loc condition")
+        if len(then[1]) != 1 or then[1][0][0] != 'assign' or then[1][0][1] != '=':
+            raise Unparsed("closest_loc branch")
+        lhs, rhs = then[1][0][2], then[1][0][3]
+        if not (lhs[0] == 'field' and is_path(lhs[1], 'res') and rhs[0] == 'mcall' and rhs[2] == 'min' and len(rhs[3]) == 1):
+            raise Unparsed("closest_loc assignment")
+        arg = rhs[3][0]
+        while arg[0] == 'paren':
+            arg = arg[1]
+        if not (arg[0] == 'bin' and arg[1] == '+' and arg[2][0] == 'field' and arg[3][0] == 'field' and arg[2][1][0] == 'field' and arg[3][1][0] == 'field'
+                and arg[2][1][2] == 'loc' and arg[3][1][2] == 'width'):
+            raise Unparsed("closest_loc upper bound is not self.loc.? + self.width.?")
+        if rhs[1][0] != 'field' or not is_path(rhs[1][1], 'pos') or cond[2][2] != lhs[2] or rhs[1][2] != lhs[2] or cond[3][2] != lhs[2]:
+            raise Unparsed("closest_loc branch mixes coordinates of pos")
+        quads.append(('xyz'.index(lhs[2]), 'xyz'.index(arg[2][2]), 'xyz'.index(arg[3][2])))
+    if len(quads) != 3:
+        raise Unparsed("closest_loc does not have three clamping branches")
+    out += ("/-- `Cell::closest_loc`: for every branch (coordinate written, coordinate of `self.loc` used, coordinate of `self.width` used) -/\n"
+            "def closestLocAxes : List (Nat × Nat × Nat) := [%s]\n" % ', '.join("(%d, %d, %d)" % q for q in quads))
+    # Cell::min_distance_to_face: the six terms `pos.A - self.loc.A` / `self.loc.A + self.width.A - pos.A`
+    _, fbody, _ = find_fn(toks[cs:ce], 'min_distance_to_face')
+    ft = [t[1] for t in fbody]
+    terms = []
+    i = 0
+    while i + 4 < len(ft):
+        if ft[i] == 'width' and ft[i + 1] == '.' and ft[i - 2] == 'self':
+            terms.append('xyz'.index(ft[i + 2]))
+        i += 1
+    out += ("/-- `Cell::min_distance_to_face`: coordinates of `self.width` that occur, in source order -/\n"
+            "def minDistToFaceWidthAxes : List Nat := [%s]\n" % ', '.join(str(x) for x in terms))
+    return out
 
 
 # --------------------------------------------------------------------------
@@ -980,7 +1023,7 @@ STUBS = {
     'Face': "def clipNormalSign : Int := 0\ndef storedNormalSign : Int := 0\n",
     'Geom': "",
     'Par': "def parLoops : List (List String) := []\ndef seqLoops : List (List String) := []\ndef sharedStateHits : List String := []\ndef featureOnlyItems : List String := []\n",
-    'Space': "def cellLocAxes : List Nat := []\n",
+    'Space': "def cellLocAxes : List Nat := []\ndef closestLocAxes : List (Nat × Nat × Nat) := []\ndef minDistToFaceWidthAxes : List Nat := []\n",
     'Grid': "def gridPad : Rat := 0\ndef gridSpan : Rat := 1\ndef mantissaMask : Nat := 0\ndef gridSharedScale : Bool := false\n",
 }
 
